@@ -187,25 +187,28 @@ def v3_all_modified_x():
     return [(fb + "/" + f, dict(db, **dict((m, "X") for m in T.V3_MODIFIED))) for fb, db in v3_base_all()]
 
 
-def v3_blocks(tier, minors=("3.0", "3.1")):
+def v3_blocks(tier):
+    """Every block is enumerated under CVSS:3.0 with twin CVSS:3.1: each point is evaluated under
+    both minor versions back to back (same process, same body)."""
     blocks = []
     ba = v3_base_all()
     req = v3_req_all()
-    for fam in minors:
-        blocks.append(Block("v%s.base_x_temporal_spellings" % fam, fam, ba, v3_temporal_spellings()))
-        if tier == "thorough":
-            blocks.append(Block("v%s.inherit" % fam, fam, ba, v3_temporal_effective(), req))
-            blocks.append(Block("v%s.override" % fam, fam, v3_modified_over_complementary_base(),
-                                v3_temporal_effective(), req))
-        else:
-            blocks.append(Block("v%s.inherit" % fam, fam, ba, v3_temporal_skeleton(12), req))
-            blocks.append(Block("v%s.override" % fam, fam, v3_modified_over_complementary_base(),
-                                v3_temporal_skeleton(4), req))
-        one_req = _pick(req, [{"CR": "H", "IR": "L", "AR": "M"}])
-        blocks.append(Block("v%s.partial_override_pairs" % fam, fam, ba, v3_modified_pairs(tier),
-                            one_req if tier != "thorough" else one_req + _pick(req, [{"CR": "L", "IR": "H", "AR": "H"}])))
-        blocks.append(Block("v%s.all_modified_explicit_X" % fam, fam, v3_all_modified_x(),
-                            v3_temporal_skeleton(3), req[::2] if tier != "thorough" else req))
+    fam, twin = "3.0", "3.1"
+    blocks.append(Block("v3.base_x_temporal_spellings", fam, ba, v3_temporal_spellings(), twin=twin))
+    if tier == "thorough":
+        blocks.append(Block("v3.inherit", fam, ba, v3_temporal_effective(), req, twin=twin))
+        blocks.append(Block("v3.override", fam, v3_modified_over_complementary_base(),
+                            v3_temporal_effective(), req, twin=twin))
+    else:
+        blocks.append(Block("v3.inherit", fam, ba, v3_temporal_skeleton(12), req, twin=twin))
+        blocks.append(Block("v3.override", fam, v3_modified_over_complementary_base(),
+                            v3_temporal_skeleton(4), req, twin=twin))
+    one_req = _pick(req, [{"CR": "H", "IR": "L", "AR": "M"}])
+    blocks.append(Block("v3.partial_override_pairs", fam, ba, v3_modified_pairs(tier),
+                        one_req if tier != "thorough" else one_req + _pick(req, [{"CR": "L", "IR": "H", "AR": "H"}]),
+                        twin=twin))
+    blocks.append(Block("v3.all_modified_explicit_X", fam, v3_all_modified_x(),
+                        v3_temporal_skeleton(3), req[::2] if tier != "thorough" else req, twin=twin))
     return blocks
 
 
